@@ -1,6 +1,11 @@
 // bbiwrite::encode_zoom_section: a batch of zoom records -> one on-disk zoom block.
 // C07/C08/C09: block bytes == published zoom-record layout (32 bytes per record), block span
 // covers every record in it, one chromosome, advertised uncompressed size == real size.
+// Round 6 (this unit has no NOTES.md): the template does not depend on the `(out_bytes, size)` tuple any more -- the
+// type shim `(bytes, 0)` -> `(bytes.bytes, 0)` is min=0 with a twin for a bare `} else { bytes }`, the proof splice
+// anchors on `let .. = if compress {`, the libdeflater cluster accepts `truncate(actual_sz)` for `resize(actual_sz, 0)`.
+// The "tidied" `let uncompressed_buf_size = bytes.len(); let out_bytes = if compress {..} else { bytes };` is judged:
+// VIOLATION advertised_uncompressed_size (0 iff not compressed); it used to end as "anchor lost".
 use vstd::prelude::*;
 use vstd::std_specs::ops::*;
 use vstd::std_specs::convert::FromSpec;
